@@ -148,6 +148,11 @@ func runPool(t *testing.T, c *choice.Stream, r *Result, opt RunOpt, lean bool) {
 			}
 		}
 		closeEarly := c.Bool("close.early", 1, 5)
+		useDefaults := c.Bool("pool.defaults", 1, 6)
+		useDial := c.Bool("pool.dial", 1, 3)
+		if useDefaults {
+			lifetime, idleTime, period = time.Hour, 30*time.Minute, time.Minute
+		}
 		dialFail := map[int]bool{}
 		if c.Bool("dialfail", 1, 5) {
 			dialFail[c.Draw("dialfail.n", 4)] = true
@@ -370,8 +375,17 @@ func runPool(t *testing.T, c *choice.Stream, r *Result, opt RunOpt, lean bool) {
 			// connection-level settings in a slice with spare capacity, as produced
 			// by make(..., 0, n) + append: every pooled client shares its backing array
 			opts.Settings = append(make([]ch.Setting, 0, 8), ch.Setting{Key: "max_threads", Value: "2", Important: true})
-			pool, err := chpool.New(ctx, chpool.Options{ClientOptions: opts, MaxConns: int32(maxConns), MinConns: int32(minConns),
-				MaxConnLifetime: lifetime, MaxConnIdleTime: idleTime, HealthCheckPeriod: period})
+			po := chpool.Options{ClientOptions: opts, MaxConns: int32(maxConns), MinConns: int32(minConns),
+				MaxConnLifetime: lifetime, MaxConnIdleTime: idleTime, HealthCheckPeriod: period}
+			if useDefaults {
+				// the documented defaults: one hour, thirty minutes, one minute
+				po.MaxConnLifetime, po.MaxConnIdleTime, po.HealthCheckPeriod = 0, 0, 0
+			}
+			newPool := chpool.New
+			if useDial {
+				newPool = chpool.Dial // also checks that a connection can be made
+			}
+			pool, err := newPool(ctx, po)
 			if err != nil {
 				if len(dialFail) == 0 {
 					r.Harness("chpool.New failed without a dial fault: %v", err)
